@@ -5,3 +5,4 @@ INVARIANT EdgesLive
 INVARIANT SizeWithinCap
 INVARIANT Acyclic
 INVARIANT GrowthLogarithmic
+INVARIANT CostLogarithmic
